@@ -5,6 +5,7 @@ package cdriver
 import (
 	"bytes"
 	"errors"
+	"fmt"
 	"hash/fnv"
 	"io"
 	"reflect"
@@ -256,12 +257,26 @@ func Run(sc *Script) []trace.Event {
 	for i := range sc.Uses {
 		u := &sc.Uses[i]
 		var e trace.Event
-		if u.Kind == "w" {
-			e, outs[i+1] = runWriter(cs, u, ids)
-		} else {
-			e = runReader(cs, u, ids, outs)
-		}
+		func() {
+			// a panic inside the codec (or the library it wraps) ends the use; it is recorded, not hidden
+			defer func() {
+				if p := recover(); p != nil {
+					e = trace.Event{"crash": fmt.Sprint(p)}
+					if u.Kind == "w" {
+						outs[i+1] = &useOut{}
+					}
+				}
+			}()
+			if u.Kind == "w" {
+				e, outs[i+1] = runWriter(cs, u, ids)
+			} else {
+				e = runReader(cs, u, ids, outs)
+			}
+		}()
 		e["ev"], e["hid"], e["u"], e["kind"], e["codec"], e["mode"], e["key"] = "use", sc.ID, i+1, u.Kind, u.Codec, u.Mode, u.Key
+		if _, crashed := e["crash"]; crashed {
+			e["ev"] = "crash"
+		}
 		evs = append(evs, e)
 	}
 	return evs
